@@ -36,3 +36,30 @@ Theorem C08_slot_payload_constructed_and_destroyed_once :
     qerr m' = false /\ Forall is_none (flist m').
 Proof. exact mechanism_never_misuses_slots. Qed.
 Print Assumptions C08_slot_payload_constructed_and_destroyed_once.
+
+(* exceptions: an operation that fails at ANY of its fault points (allocation, copy, move or comparison
+   of a user type — the k-th such point, every k) keeps nothing of what it had built: the node, slot
+   or list under construction is released on every path, and the operations with the strong guarantee
+   leave the observable world — the callbacks and payloads held included — exactly as before.  These
+   are C09's theorems over the fault profiles built from the headers' structure (tie A: GenExn, e.g.
+   the copy constructor delegates to the default constructor, so that the destructor releases the
+   nodes cloned so far when a callback's copy throws); restated here because C08 names exceptions. *)
+From EV Require ExnModel ExnFault.
+
+Theorem C08_failed_operation_keeps_nothing_it_built :
+  forall o w k,
+    ExnModel.wtmp w = [] ->
+    match ExnModel.run_faulted (ExnModel.op_of o w) k w with
+    | ExnModel.Done w' => ExnModel.wtmp w' = []
+    | ExnModel.Thrown _ w' => ExnModel.wtmp w' = []
+    | ExnModel.Terminated _ => True
+    end.
+Proof. exact ExnFault.plan_ops_release_scratch. Qed.
+Print Assumptions C08_failed_operation_keeps_nothing_it_built.
+
+Theorem C08_failed_operation_leaves_what_is_held_unchanged :
+  forall o w k fk w',
+    ExnFault.strong_by_shape o = true ->
+    ExnModel.run_faulted (ExnModel.op_of o w) k w = ExnModel.Thrown fk w' -> ExnModel.obs w' = ExnModel.obs w.
+Proof. exact ExnFault.plan_ops_strong. Qed.
+Print Assumptions C08_failed_operation_leaves_what_is_held_unchanged.
